@@ -3,7 +3,7 @@ CONSTANTS
   KCh = {"K1"}
   Modes = {"insert", "append"}
   OwnsAllSet = {FALSE, TRUE}
-  Rich = 1
+  Rich = 0
   MaxLen = 4
   MaxEdits = 1
   EditInApply = TRUE
